@@ -1623,7 +1623,12 @@ public:
                              {
                                if (auto s = w.lock())
                                {
-                                 if (!s->canceled.load(std::memory_order_acquire))
+                                 // The handler starts only if this arm has not been
+                                 // canceled; from here on cancel() answers false.
+                                 int expected = Shared::Armed;
+                                 if (s->state.compare_exchange_strong(expected, Shared::Started,
+                                                                      std::memory_order_acq_rel,
+                                                                      std::memory_order_acquire))
                                  {
                                    try
                                    {
@@ -1636,19 +1641,34 @@ public:
                                  }
                                }
                              });
+    if (*_token == 0)
+    {
+      _token.reset(); // the service refused the timer: nothing is armed
+    }
   }
 
+  /// \brief Cancel the armed wait.
+  /// \return true if the handler had not started and now never will; false if
+  ///         it has already started (or finished) or nothing is armed.
   bool cancel()
   {
+    // Decide against the handler wrapper who owns this arm. The service may
+    // already have collected the record (it waits in the loop's ready list
+    // behind a slower handler): then _svc.cancel() answers false, but the
+    // handler has not started and the transition below still stops it.
+    bool suppressed = false;
     if (_shared)
     {
-      _shared->canceled.store(true, std::memory_order_release);
+      int expected = Shared::Armed;
+      suppressed = _shared->state.compare_exchange_strong(expected, Shared::Canceled,
+                                                          std::memory_order_acq_rel,
+                                                          std::memory_order_acquire);
     }
     if (_token)
     {
       bool ok = _svc.cancel(*_token);
       _token.reset();
-      return ok;
+      return ok || suppressed;
     }
     return false;
   }
@@ -1658,9 +1678,17 @@ public:
   const TimerService &getService() const { return _svc; }
 
 private:
+  /// State of one arm (a fresh object per asyncWait). Armed is left exactly
+  /// once: by the handler wrapper (Started) or by cancel() (Canceled).
   struct Shared
   {
-    std::atomic<bool> canceled{false};
+    enum State : int
+    {
+      Armed = 0,
+      Started = 1,
+      Canceled = 2
+    };
+    std::atomic<int> state{Armed};
   };
 
   TimerService &_svc;
